@@ -394,7 +394,12 @@ def impl(case: Case) -> list[str]:
         return hit
     shape = case.payload
     stims = [parse_stim(shape, o) for o in case.ops if o.startswith("cyc")]
-    b, obs = run_real(shape, stims)
+    try:
+        b, obs = run_real(shape, stims)
+    except InfraError:
+        raise
+    except Exception as e:  # noqa: BLE001 - an exception of the real builder is an observation
+        return ["ok"] + [f"raise {type(e).__name__}"] * len(case.ops)
     out = ["ok"]
     it = iter(obs)
     for o in case.ops:
@@ -566,7 +571,7 @@ def random_shape(rng, n: int) -> dict:
     for i in range(n):
         last = i == n - 1
         kind = rng.choice(["ext", "func", "call"]) if 0 < i < n - 1 else rng.choice(["ext", "ext", "ext", "func", "call"])
-        nodep = i > 0 and not last and rng.random() < 0.25
+        nodep = not last and rng.random() < (0.25 if i > 0 else 0.12)
         fifo = rng.choice([0, 0, 0, 1, 2, 3, 5]) if i > 0 else 0
         if i == 0:
             req = []
@@ -586,6 +591,17 @@ def random_shape(rng, n: int) -> dict:
             a["gen"] = []
             b["nodep"], b["req"], b["pair"] = True, [], True
             b["gen"] = [[g[0], g[1], [rng.randrange(4) for _ in a["req"]]] for g in b["gen"]]
+    # required fields must have been generated by an earlier node (the coupling above may have removed a generator)
+    seen: set[int] = set()
+    for i, nd in enumerate(nodes):
+        keep = [k for k in nd["req"] if k in seen]
+        if keep != nd["req"]:
+            nd["req"] = keep
+            if nd["kind"] != "ext":
+                nd["gen"] = [[g[0], g[1], [rng.randrange(4) for _ in keep]] for g in nd["gen"]]
+            if i + 1 < n and nodes[i + 1]["pair"]:
+                nodes[i + 1]["gen"] = [[g[0], g[1], [rng.randrange(4) for _ in keep]] for g in nodes[i + 1]["gen"]]
+        seen |= {g[0] for g in nd["gen"]}
     # make the builder accept it: drop generated fields nobody uses (unless allow_unused), allow empty points if there are any
     for _ in range(3):
         live = live_after(shape)
@@ -646,7 +662,10 @@ def _cases_for_shape(args) -> list[tuple]:
         built(shape)
     except InfraError:
         raise
-    except Exception as e:  # noqa: BLE001 - the builder rejected the shape (ValueError/TypeError/...): not a case
+    except Exception as e:  # noqa: BLE001 - the builder rejected the shape (ValueError/TypeError/...)
+        if tag == "directed":  # known-good shapes (the repository's own test pipelines): the exception is an observation
+            c = Case(cfg_line(shape), ["live"], {"component": "PipelineBuilder", "shape": shape, "n": len(shape["nodes"]), "kinds": "rejected"}, tag)
+            return [("case", c.cfg, c.ops, c.desc, c.tag, ["ok", f"raise {type(e).__name__}"])]
         return [("rejected", f"{type(e).__name__}: {str(e)[:80]}")]
     res = []
     for seed, pname in seeds:
@@ -659,16 +678,16 @@ def _cases_for_shape(args) -> list[tuple]:
 
 def gen_cases(ctx: Check) -> list[Case]:
     rng = ctx.rng("gen")
-    length = ctx.pick(70, 160)
+    length = ctx.pick(60, 120)
     profs = list(PROFILES)
     jobs = []
     for name in DIRECTED:
         shape = directed_shape(name)
         jobs.append((shape, [(rng.getrandbits(32), p) for p in ctx.pick(["free", "stalls", "clears", "slow_sink"], profs)], length, "directed"))
-    n_random = ctx.pick(34, 400)
+    n_random = ctx.pick(26, 160)
     for k in range(n_random):
         shape = random_shape(rng, rng.choice([2, 3, 3, 4, 4, 5, 6, 7]))
-        ps = [profs[(k + j) % len(profs)] for j in range(ctx.pick(3, 5))]
+        ps = [profs[(k + j) % len(profs)] for j in range(ctx.pick(3, 4))]
         jobs.append((shape, [(rng.getrandbits(32), p) for p in ps], length, "random"))
     procs = 1 if ctx.quick else min(12, __import__("os").cpu_count() or 1)
     if procs > 1:
@@ -683,8 +702,6 @@ def gen_cases(ctx: Check) -> list[Case]:
         for r in res:
             if r[0] == "rejected":
                 ctx.count("shapes_rejected_by_builder")
-                if job[3] == "directed":
-                    raise InfraError(f"directed shape rejected by the builder: {r[1]}")
                 continue
             _, cfg, ops, desc, tag, outl = r
             c = Case(cfg, ops, desc, tag, payload=desc["shape"])
@@ -698,6 +715,12 @@ def gen_cases(ctx: Check) -> list[Case]:
 def more_cases(case: Case, rng):
     shape = case.payload if case.payload is not None else case.desc["shape"]
     profs = list(PROFILES)
+    try:
+        built(shape)
+    except InfraError:
+        raise
+    except Exception:  # noqa: BLE001 - the builder rejects this shape: nothing to run
+        return
     for j in range(24):
         yield make_case(shape, random_stims(rng, shape, 60, PROFILES[profs[j % len(profs)]]), "search")
 
